@@ -278,8 +278,13 @@ func c19Case(c *core.Ctx, idx int) {
 		ok := s.Run(fns)
 		c07YieldMode = 0
 		c07Sched = nil
+		rec.Count("blocked_worker_bypassed", s.Blocked)
+		if !ok && s.Why == "watchdog" {
+			rec.Count("inconclusive_trials", 1)
+			return
+		}
 		if !ok {
-			rec.Violation("scheduler-stuck", "serialised goroutines stopped making progress", extra)
+			rec.Violation("scheduler-stuck", "every unfinished goroutine is blocked and the process has been idle for 3 s (deadlock)", extra)
 			return
 		}
 		h := core.Hash64(name)
